@@ -310,6 +310,16 @@ pub fn lzma_decompress(input: &[u8], opts: &Opts, kind: &ReaderKind, io: &Io) ->
     })
 }
 
+/// The default-options wrapper `lzma_rs::lzma_decompress`.
+pub fn lzma_decompress_wrapper(input: &[u8], kind: &ReaderKind, io: &Io) -> Run {
+    run_with(input, kind, io, |mut r, w| lzma_rs::lzma_decompress(&mut r, w))
+}
+
+/// The default-options wrapper `lzma_rs::lzma_compress` (end marker, size unknown).
+pub fn lzma_compress_wrapper(input: &[u8], kind: &ReaderKind, io: &Io) -> Run {
+    run_with(input, kind, io, |mut r, w| lzma_rs::lzma_compress(&mut r, w))
+}
+
 pub fn lzma_decompress_simple(input: &[u8], opts: &Opts) -> Run {
     lzma_decompress(input, opts, &ReaderKind::Slice, &Io::default())
 }
@@ -422,6 +432,8 @@ pub enum Call {
     WriteOnce(usize),
     Flush,
     GetOutput,
+    /// get_output_mut() and flush the sink through it
+    GetOutputMut,
 }
 
 #[derive(Clone, Debug)]
@@ -484,7 +496,8 @@ pub fn stream_run_ext(
     let mut n_write_calls = 0usize;
     let mut finish = Verdict::Ok;
     let r = guarded(|| {
-        let mut s = Stream::new_with_options(&o, sink.clone());
+        // `Stream::new` is the default-options constructor
+        let mut s = if *opts == Opts::default() { Stream::new(sink.clone()) } else { Stream::new_with_options(&o, sink.clone()) };
         for (i, call) in script.iter().enumerate() {
             let result = match call {
                 Call::Write(n) => {
@@ -537,6 +550,10 @@ pub fn stream_run_ext(
                 }
                 Call::Flush => s.flush().map(|_| 0).map_err(|e| format!("{:?}", e)),
                 Call::GetOutput => Ok(s.get_output().map(|o| o.len()).unwrap_or(usize::MAX)),
+                Call::GetOutputMut => match s.get_output_mut() {
+                    Some(o) => o.flush().map(|_| 0).map_err(|e| format!("{:?}", e)),
+                    None => Ok(usize::MAX),
+                },
             };
             let is_write = matches!(call, Call::Write(_) | Call::WriteOnce(_));
             let failed = result.is_err() && is_write;
